@@ -101,6 +101,15 @@ Theorem C17_html_all_text_without_removable :
 Proof. exact html_all_text. Qed.
 Print Assumptions C17_html_all_text_without_removable.
 
+(* text that has been extracted is never retracted by what follows (more markup, a removed element
+   left open, a truncated document): the tree text after l ++ l' extends the tree text after l *)
+Theorem C17_html_text_monotone :
+  forall (remove void : list str) (l l' : list event),
+    exists rest, flat_node (tree_of (vis (html_build remove void (l ++ l'))))
+                 = flat_node (tree_of (vis (html_build remove void l))) ++ rest.
+Proof. exact html_text_monotone. Qed.
+Print Assumptions C17_html_text_monotone.
+
 (* ---- EPUB chapter machine (_XhtmlTextExtractor); normcell = whitespace normalisation oracle ---- *)
 
 Theorem C17_epub_noninterference :
